@@ -174,7 +174,14 @@ impl Project for FileBackedProject {
 
         // Do the analysis
         match analyze(&all_libraries) {
-            Ok(_) => Ok(()),
+            Ok(_) => {
+                // A file that did not parse is an error even when the rest is valid
+                if all_diagnostics.is_empty() {
+                    Ok(())
+                } else {
+                    Err(all_diagnostics)
+                }
+            }
             Err(diagnostics) => {
                 // If we had an error, then add more diagnostics to any that we already had
                 all_diagnostics.extend(diagnostics);
